@@ -209,6 +209,14 @@ impl<'a, 'b> Gram<'a, 'b> {
                 }
                 self.w(")")
             }
+            3 if self.c.chance(1, 4) => {
+                // positional access on a tuple / tuple-like value
+                let base = *self.c.pick(&["x", "y", "(1, 2)", "(x, true, \"s\")", "a", "self"]);
+                self.w(base);
+                self.w(".");
+                let i = *self.c.pick(&["0", "1", "2", "3", "4", "10", "4294967296"]);
+                self.w(i)
+            }
             3 => {
                 self.expr();
                 self.w(".");
@@ -698,7 +706,7 @@ fn token_bounds(text: &str) -> Vec<(usize, usize)> {
 
 pub const MUTATION_KINDS: &[&str] = &[
     "delete", "duplicate", "swap", "replace", "truncate", "splice", "flip-delim", "insert-multibyte", "insert-token",
-    "delete-range",
+    "delete-range", "int-perturb", "ident-swap",
 ];
 
 /// Apply 1..=k token-level mutations. Returns (text, kinds applied).
@@ -817,6 +825,33 @@ pub fn mutate(c: &mut Choices, base: &str, other: &str, k: usize) -> (String, Ve
                 text.insert_str(s, t);
                 if fam != 4 {
                     text.insert(s + t.len(), ' ');
+                }
+            }
+            10 => {
+                // off-by-one / boundary on an integer literal (tuple indices, array sizes, argument values …)
+                let ints: Vec<(usize, usize)> = toks.iter().copied().filter(|&(a, b)| text[a..b].chars().all(|ch| ch.is_ascii_digit()) && b - a <= 9).collect();
+                if !ints.is_empty() {
+                    let (a, b) = ints[c.below(ints.len())];
+                    let v: i64 = text[a..b].parse().unwrap_or(0);
+                    let nv = match c.below(6) {
+                        0 => v + 1,
+                        1 => (v - 1).max(0),
+                        2 => v + 2,
+                        3 => 0,
+                        4 => v * 2 + 1,
+                        _ => 4294967296,
+                    };
+                    text.replace_range(a..b, &nv.to_string());
+                }
+            }
+            11 => {
+                // replace one identifier by another identifier of the same file (wrong-but-well-formed names)
+                let ids: Vec<(usize, usize)> = toks.iter().copied().filter(|&(a, b)| text[a..b].chars().next().map(|ch| ch.is_alphabetic() || ch == '_').unwrap_or(false) && text[a..b].chars().all(|ch| ch.is_alphanumeric() || ch == '_') && !KEYWORDS.contains(&&text[a..b])).collect();
+                if ids.len() >= 2 {
+                    let (a, b) = ids[c.below(ids.len())];
+                    let (a2, b2) = ids[c.below(ids.len())];
+                    let repl = text[a2..b2].to_string();
+                    text.replace_range(a..b, &repl);
                 }
             }
             _ => {
